@@ -34,7 +34,7 @@ def gen(tier, seed):
             specs.append(("parked-on-halt", feat, PARKED, [], [("continue",)] + list(combo)))
         for combo in itertools.product(resumes + [("goto", ("addr", 0x3002)), ("goto", ("addr", 0xFDFF))], repeat=2):
             specs.append(("parked-goto", feat, PARKED, [], [("continue",)] + list(combo)))
-    n = 1000 if tier == "quick" else 30000
+    n = 1000 if tier == "quick" else 100000
     for i in range(n):
         p = dbggen.PROGRAMS[i % len(dbggen.PROGRAMS)]
         src, feat = p(rnd)
